@@ -1,6 +1,363 @@
-"""Python-side streams (CLI-level runs, timing, multi-launch comparisons)."""
+"""Python-side streams: runs of /repo's own release binary (hooks off) in separate processes
+(C13 determinism, C14 exit-code/stream contract) and the scaling families of C17.
+Every random choice derives from VERIF_SEED through random.Random(seed)."""
+import hashlib
+import json
+import os
+import random
+import re
+import subprocess
+import time
+from concurrent.futures import ThreadPoolExecutor
+
+ALPHABET = [b"x", b"y", b"1", b" ", b"\n", b"(", b")", b"=", b";", b"+", b"-", b">", b"#", b"{", b":", b"if", b"_",
+            b"\xc3\xa9", b"\xe2\x82\xac", b"\xff", b"\xc3", b"\x00", b"$", b"\r"]
+
+
+def hexs(b):
+    return "x:" + b.hex()
+
+
+def _run_cli(args):
+    binary, sub, path, timeout = args
+    env = dict(os.environ)
+    env["NO_COLOR"] = "1"
+    t0 = time.time()
+    try:
+        p = subprocess.run([binary, sub, path], stdout=subprocess.PIPE, stderr=subprocess.PIPE, timeout=timeout, env=env)
+        return p.returncode, p.stdout, p.stderr, time.time() - t0
+    except subprocess.TimeoutExpired:
+        return "timeout", b"", b"", time.time() - t0
+
+
+def _workdir(chk, name):
+    d = os.path.join(chk.BUILD, "run", name)
+    os.makedirs(d, exist_ok=True)
+    return d
+
+
+def _programs(chk, stream, tier, seed, limit):
+    """source texts from the OCaml generators (pipe cases of a stream)"""
+    rc, out = chk.sh([chk.DRIVER_BIN, "gen", stream, tier, str(seed), "0", "16"], timeout=600)
+    res = []
+    for l in out.split("\n"):
+        m = re.search(r"\(pipe \w+ x:([0-9a-f]*)\)", l)
+        if m:
+            res.append(bytes.fromhex(m.group(1)))
+        if len(res) >= limit:
+            break
+    return res
+
+
+def contract_violation(rc, out, err):
+    """C14: exit 0 with the result on stdout and nothing on stderr, or exit 1 with at least one [Error] on
+    stderr and nothing on stdout."""
+    if rc == 0:
+        if not out.strip():
+            return "exit 0 with empty standard output"
+        if err.strip():
+            return "exit 0 with diagnostics on standard error"
+        return None
+    if rc == 1:
+        if out.strip():
+            return "exit 1 with output on standard output"
+        if b"[Error]" not in err:
+            return "exit 1 without an [Error] diagnostic"
+        return None
+    if rc == "timeout":
+        return "timeout"
+    return "abnormal exit status %r (stderr: %s)" % (rc, err[-200:].decode("utf-8", "replace"))
+
+
+# ------------------------------------------------------------------------------------------- C14
+def cli_contract(chk, pid, tier, seed):
+    ok, out, binary = chk.build_repo_cli()
+    if not ok:
+        return {"errors": ["/repo does not build: " + out[-500:]]}
+    rnd = random.Random(seed * 1000003 + 14)
+    wd = _workdir(chk, "c14")
+    inputs = []
+    # all byte strings of length <= 2 (quick) / 3 (thorough) over the alphabet (invalid UTF-8 included)
+    maxlen = 2 if tier == "quick" else 3
+
+    def rec(prefix, k):
+        inputs.append(prefix)
+        if k < maxlen:
+            for a in ALPHABET:
+                rec(prefix + a, k + 1)
+    rec(b"", 0)
+    # random byte strings
+    for _ in range(600 if tier == "quick" else 6000):
+        n = rnd.randint(1, 60)
+        if rnd.random() < 0.5:
+            inputs.append(bytes(rnd.randrange(256) for _ in range(n)))
+        else:
+            inputs.append(b"".join(rnd.choice(ALPHABET) for _ in range(n)))
+    # token soup and grammar sentences with single-token edits
+    words = [b"x", b"y", b"1", b"(", b")", b"=", b";", b"\n", b"+", b"-", b"*", b"/", b"=>", b"->", b":", b"{", b"}", b"if", b"then",
+             b"else", b"true", b"false", b"int", b"bool", b"type", b"<", b"<=", b"==", b">", b">=", b"_"]
+    for _ in range(600 if tier == "quick" else 6000):
+        inputs.append(b" ".join(rnd.choice(words) for _ in range(rnd.randint(1, 25))))
+    progs = _programs(chk, "C02", tier, seed, 400 if tier == "quick" else 3000)
+    for p in progs:
+        inputs.append(p)
+        toks = p.split(b" ")
+        if len(toks) > 1:
+            i = rnd.randrange(len(toks))
+            k = rnd.randrange(3)
+            if k == 0:
+                del toks[i]
+            elif k == 1:
+                toks[i] = rnd.choice(words)
+            else:
+                toks.insert(i, rnd.choice(words))
+            inputs.append(b" ".join(toks))
+    # deep but bounded nesting (stack budget: 16 MiB, release build)
+    for n in (64, 512, 2048):
+        inputs.append(b"(" * n + b"1" + b")" * n)
+        inputs.append(b"(" * n + b"1")
+        inputs.append(b"1" + b" + 1" * (2 * n))
+    inputs = list(dict.fromkeys(inputs))
+    jobs = []
+    for i, b in enumerate(inputs):
+        path = os.path.join(wd, "in%06d.g" % i)
+        with open(path, "wb") as f:
+            f.write(b)
+        jobs.append((binary, "check" if i % 3 else "run", path, 20))
+    with ThreadPoolExecutor(max_workers=chk.NCPU) as ex:
+        results = list(ex.map(_run_cli, jobs))
+    fails, kinds = [], {}
+    nontrivial = set()
+    for (b, (rc, out, err, dt)), job in zip(zip(inputs, results), jobs):
+        key = "exit%s" % rc
+        kinds[key] = kinds.get(key, 0) + 1
+        if rc == 1:
+            nontrivial.add(b)
+        v = contract_violation(rc, out, err)
+        if v == "timeout":
+            kinds["inconclusive-timeout"] = kinds.get("inconclusive-timeout", 0) + 1
+            continue
+        if v:
+            fails.append({"kind": "property", "stream": "py:cli_contract", "case": "(cli %s %s)" % (job[1], hexs(b)),
+                          "result": "(exit %s)" % rc, "detail": v, "noshrink": True})
+    for p in [j[2] for j in jobs]:
+        try:
+            os.remove(p)
+        except OSError:
+            pass
+    return {"fails": fails, "stats": {"total": len(inputs), "distinct_nontrivial": len(nontrivial), "cli_exit_kinds": kinds},
+            "samples": ["(cli check %s)" % hexs(inputs[5 % len(inputs)]), "(cli run %s)" % hexs(inputs[-1][:60])],
+            "coverage": {"cli_runs": len(inputs)}}
+
+
+# ------------------------------------------------------------------------------------------- C13
+def hash_iteration_sites(repo):
+    """Translator-style scan: every iteration over a HashSet/HashMap in /repo/src (non-test code).
+    A use of a name refers to the nearest preceding completed `let` of that name (Rust shadowing) or,
+    failing that, to a parameter of that name."""
+    sites = []
+    for fn in sorted(os.listdir(os.path.join(repo, "src"))):
+        if not fn.endswith(".rs"):
+            continue
+        src = open(os.path.join(repo, "src", fn), encoding="utf-8").read()
+        cut = src.find("#[cfg(test)]\nmod tests")
+        if cut > 0:
+            src = src[:cut]
+        src = re.sub(r"//[^\n]*", "", src)
+        # bindings: (end position of the statement, name, is_hash)
+        binds = []
+        for m in re.finditer(r"let (?:mut )?(\w+)(\s*:\s*[^=;]+)?\s*=", src):
+            end = src.find(";", m.end())
+            init = src[m.end():end if end > 0 else m.end() + 200]
+            ann = m.group(2) or ""
+            is_hash = bool(re.search(r"Hash(Set|Map)", ann)) or bool(re.match(r"\s*Hash(Set|Map)::new\(\)", init))
+            binds.append((end if end > 0 else m.end(), m.group(1), is_hash))
+        for m in re.finditer(r"(\w+): &(?:mut )?(?:'\w+ )?(?:mut )?Hash(?:Set|Map)<", src):
+            binds.append((m.end(), m.group(1), True))
+        for m in re.finditer(r"(\w+): &(?:mut )?\[", src):
+            binds.append((m.end(), m.group(1), False))
+        names = sorted(set(b[1] for b in binds if b[2]))
+        for nme in names:
+            for m in re.finditer(r"for [^\n]* in &?(?:mut )?%s\b|\b%s\s*\.\s*(iter|into_iter|keys|values|drain|iter_mut)\(" % (nme, nme), src):
+                prior = [b for b in binds if b[1] == nme and b[0] <= m.start()]
+                if not prior or not max(prior)[2]:
+                    continue
+                line = src.count("\n", 0, m.start()) + 1
+                ctx = src[m.start():m.start() + 160]
+                sorted_after = bool(re.search(r"\.sort(_unstable)?\(\)", src[m.start():m.start() + 400]))
+                sites.append({"file": "src/" + fn, "variable": nme, "line": line, "sorted": sorted_after,
+                              "text": " ".join(ctx.split())[:100]})
+    return sites
+
+
+MODELLED_HASH_SITES = [("src/parser.rs", "variables", True)]   # check_definition: collected into a Vec and sorted (repair D5)
+
+
+def cli_determinism(chk, pid, tier, seed):
+    ok, out, binary = chk.build_repo_cli()
+    if not ok:
+        return {"errors": ["/repo does not build: " + out[-500:]]}
+    errors = []
+    sites = hash_iteration_sites(chk.REPO)
+    got = sorted((s["file"], s["variable"], s["sorted"]) for s in sites)
+    if got != sorted(MODELLED_HASH_SITES):
+        errors.append("iteration_sites != modelled_sites: hash-ordered iteration sites in /repo/src are now %s" % json.dumps(sites))
+    rnd = random.Random(seed * 1000003 + 13)
+    wd = _workdir(chk, "c13")
+    files = []
+    # rejected programs with several diagnostics from one stage, accepted programs, multi-definition-order faults
+    multi = [
+        b"x = y + z + w; y = 1 + 1; z = 1 + 1; w = 1 + 1; x",
+        b"a = b + c + d + e + f; b = 1 + 1; c = 1 + 1; d = 1 + 1; e = 1 + 1; f = 1 + 1; a",
+        b"p = q + r; q = r + 1; r = 1 + 1; s = p + q + r; p",
+        b"x = u + v + w + y + z; u = 0 + 0; v = 0 + 0; w = 0 + 0; y = 0 + 0; z = 0 + 0; k = x + u + v; k",
+        b"(true + 1) + (false + 2) + (type + 3)", b"a + b + c + d", b"x => x => x => y", b"( ( (", b"1 $ 2 @ 3 ~ 4",
+    ]
+    files.extend(multi)
+    progs = _programs(chk, "C01", tier, seed, 120 if tier == "quick" else 600)
+    files.extend(progs)
+    for p in progs[:60 if tier == "quick" else 300]:
+        toks = p.split(b" ")
+        for _ in range(3):
+            if toks:
+                toks[rnd.randrange(len(toks))] = rnd.choice([b"zz", b"true", b"+", b"(", b"qq", b"1"])
+        files.append(b" ".join(toks))
+    files = list(dict.fromkeys(files))
+    launches = 12 if tier == "quick" else 60
+    jobs = []
+    for i, b in enumerate(files):
+        path = os.path.join(wd, "in%05d.g" % i)
+        with open(path, "wb") as f:
+            f.write(b)
+        for k in range(launches):
+            jobs.append((binary, "check" if k % 2 == 0 else "run", path, 20))
+    with ThreadPoolExecutor(max_workers=chk.NCPU) as ex:
+        results = list(ex.map(_run_cli, jobs))
+    fails = []
+    nontrivial = set()
+    k = 0
+    for i, b in enumerate(files):
+        seen = {}
+        for j in range(launches):
+            rc, out, err, dt = results[k]
+            sub = jobs[k][1]
+            k += 1
+            if rc == "timeout":
+                continue
+            seen.setdefault(sub, set()).add((rc, out, err))
+            if err.count(b"[Error]") >= 2:
+                nontrivial.add(b)
+        for sub, outs in seen.items():
+            if len(outs) > 1:
+                a, c = sorted(outs, key=repr)[:2]
+                fails.append({"kind": "property", "stream": "py:cli_determinism", "case": "(cli %s %s)" % (sub, hexs(b)),
+                              "result": "(outputs %d)" % len(outs), "noshrink": True,
+                              "detail": "two launches differ: %r vs %r" % (a[2][-160:], c[2][-160:])})
+    for j in jobs[::launches]:
+        try:
+            os.remove(j[2])
+        except OSError:
+            pass
+    return {"fails": fails, "errors": errors,
+            "stats": {"total": len(jobs), "distinct_nontrivial": len(nontrivial), "files": {"n": len(files)}},
+            "samples": ["(cli check %s) x %d launches" % (hexs(files[0]), launches)],
+            "coverage": {"files": len(files), "launches_per_file": launches, "hash_iteration_sites": sites}}
+
+
+# ------------------------------------------------------------------------------------------- C17
+def families(n):
+    """(name, source) input families parameterised by n; well-formed and truncated members."""
+    f = []
+    f.append(("nested-parens", "(" * n + "1" + ")" * n))
+    f.append(("nested-parens-truncated", "(" * n + "1" + ")" * (n // 2)))
+    f.append(("nested-parens-open", "(" * n))
+    f.append(("sum-chain", "1" + " + 1" * n))
+    f.append(("sum-chain-truncated", "1" + " + 1" * n + " +"))
+    f.append(("mixed-chain", "1" + " * 2 - 3 / 4 + 5" * (n // 4)))
+    f.append(("application-chain", "f => f" + " f" * n))
+    f.append(("comparison-nest", "(" * (n // 2) + "1" + " == 1)" * (n // 2)))
+    f.append(("definitions", "".join("x%d = %d; " % (i, i) for i in range(n)) + "x0"))
+    f.append(("definitions-truncated", "".join("x%d = %d; " % (i, i) for i in range(n)) + "x0 ="))
+    f.append(("definitions-linebreaks", "".join("x%d : int = %d\n" % (i, i) for i in range(n)) + "x0"))
+    f.append(("nested-if", "if true then " * (n // 3) + "1" + " else 2" * (n // 3)))
+    f.append(("nested-if-truncated", "if true then " * (n // 3) + "1" + " else 2" * (n // 6)))
+    f.append(("nested-if-missing-then", "if true " * (n // 2) + "1"))
+    f.append(("lambda-chain", "".join("(a%d : int) => " % i for i in range(n // 4)) + "1"))
+    f.append(("arrow-chain", "int" + " -> int" * n))
+    f.append(("curly-soup", "{ x " * (n // 2)))
+    f.append(("paren-operator-soup", "( 1 + " * (n // 3)))
+    f.append(("let-in-parens", "(x = " * (n // 3) + "1" + "; x)" * (n // 3)))
+    f.append(("unclosed-lets", "x = ( " * (n // 3)))
+    f.append(("colon-chain", "x : " * (n // 2)))
+    return f
+
+
+def parse_scaling(chk, pid, tier, seed):
+    sizes = [64, 128, 256, 512, 1024] + ([2048] if tier == "thorough" else [])
+    lines, meta = [], []
+    for n in sizes:
+        for name, src in families(n):
+            lines.append("(timeparse %s %d)" % (hexs(src.encode()), 3))
+            meta.append((name, n))
+    res = chk.run_harness_lines(lines, case_ms=60000)
+    fails = []
+    by_family = {}
+    worst_ratio = {}
+    for (name, n), l in zip(meta, res):
+        r = l.split("\t", 1)[1]
+        m = re.match(r"\(timed (\w+) (\d+) (\d+) \(hooks (\d+) (\d+) (\d+) (\d+)\)\)", r)
+        if not m:
+            if "(timeout)" in r or "(abort)" in r:
+                fails.append({"kind": "property", "stream": "py:parse_scaling", "case": l.split("\t")[0][:300], "result": r,
+                              "detail": "family %s n=%d: tokenize+parse did not finish (%s)" % (name, n, r), "noshrink": True})
+            continue
+        verdict, ntok, us, misses, scans = m.group(1), int(m.group(2)), int(m.group(3)), int(m.group(6)), int(m.group(7))
+        by_family.setdefault(name, []).append((n, ntok, us, misses, scans))
+        # proved bounds of the model: bodies <= 36 * (tokens + 1); scan steps <= bodies * (tokens + 1)
+        if misses > 36 * (ntok + 1):
+            fails.append({"kind": "property", "stream": "py:parse_scaling", "case": l.split("\t")[0][:300], "result": r, "noshrink": True,
+                          "detail": "family %s n=%d: %d memo misses exceed 36*(tokens+1)=%d (packrat bound)" % (name, n, misses, 36 * (ntok + 1))})
+        if scans > 2 * (ntok + 1) * (ntok + 1):
+            fails.append({"kind": "property", "stream": "py:parse_scaling", "case": l.split("\t")[0][:300], "result": r, "noshrink": True,
+                          "detail": "family %s n=%d: %d recovery scan steps exceed 2*(tokens+1)^2" % (name, n, scans)})
+    growth = {}
+    for name, pts in by_family.items():
+        pts.sort()
+        for (n1, t1, u1, _, _), (n2, t2, u2, _, _) in zip(pts, pts[1:]):
+            ratio = u2 / max(u1, 1)
+            growth[name] = max(growth.get(name, 0), round(ratio, 2))
+            # polynomial of low degree: doubling the input may not multiply the time by more than 6 (+ 3 ms slack)
+            if u2 > 6 * u1 + 3000:
+                fails.append({"kind": "property", "stream": "py:parse_scaling", "case": "(family %s %d)" % (name, n2), "noshrink": True,
+                              "result": "(us %d -> %d)" % (u1, u2),
+                              "detail": "family %s: time grows %.1fx from n=%d to n=%d (%d us -> %d us)" % (name, ratio, n1, n2, u1, u2)})
+    return {"fails": fails, "stats": {"total": len(lines), "distinct_nontrivial": len(lines), "families": {k: len(v) for k, v in by_family.items()}},
+            "samples": [lines[0][:120], "(family definitions n=1024)"],
+            "coverage": {"max_growth_per_doubling": growth, "sizes": sizes,
+                         "largest": {k: {"tokens": v[-1][1], "us": v[-1][2], "misses": v[-1][3], "scans": v[-1][4]} for k, v in by_family.items()}}}
 
 
 def replay(chk, body, path):
-    print("no python-side replay for", body.get("stream"))
-    return 2
+    case = body.get("case", "")
+    m = re.match(r"\(cli (\w+) x:([0-9a-f]*)\)", case)
+    if m:
+        ok, out, binary = chk.build_repo_cli()
+        wd = _workdir(chk, "replay")
+        p = os.path.join(wd, "replay.g")
+        with open(p, "wb") as f:
+            f.write(bytes.fromhex(m.group(2)))
+        outs = set()
+        for _ in range(30 if body.get("stream") == "py:cli_determinism" else 1):
+            rc, o, e, _ = _run_cli((binary, m.group(1), p, 20))
+            outs.add((rc, o, e))
+        for rc, o, e in list(outs)[:2]:
+            print("exit=%s\nstdout=%r\nstderr=%s" % (rc, o[-300:], e.decode("utf-8", "replace")[-600:]))
+        bad = len(outs) > 1 if body.get("stream") == "py:cli_determinism" else any(contract_violation(rc, o, e) for rc, o, e in outs)
+        if bad:
+            print("VIOLATION property=%s replay=%s" % (body["property"], path))
+            return 1
+        print("passes now")
+        return 0
+    print(json.dumps(body, indent=1))
+    print("re-run: ./check run %s --tier %s" % (body["property"], body.get("tier", "quick")))
+    return 0
